@@ -143,6 +143,12 @@ fn run_items(items: Vec<DItem>) -> Result<(), String> {
                 let mut t = table.clone();
                 one_search(k, &game, &mut t, it.depth, Some(kk), &it.moves);
             }
+            // and once with the stop already pending when the search is started
+            let mut t = table.clone();
+            one_search_ex(k, &game, &mut t, it.depth, None, &it.moves, true);
+        } else if it.pre_stopped {
+            let mut t = table.clone();
+            one_search_ex(k, &game, &mut t, it.depth, None, &it.moves, true);
         } else if it.isolated {
             let mut t = table.clone();
             one_search(k, &game, &mut t, it.depth, it.stop_at, &it.moves);
@@ -155,12 +161,17 @@ fn run_items(items: Vec<DItem>) -> Result<(), String> {
 
 /// returns (polls made, poll counts at which `info depth` lines were printed)
 fn one_search(k: usize, game: &Game, table: &mut TranspositionTable, depth: Option<u8>, stop_at: Option<u64>, moves: &[String]) -> (u64, Vec<u64>) {
+    one_search_ex(k, game, table, depth, stop_at, moves, false)
+}
+
+fn one_search_ex(k: usize, game: &Game, table: &mut TranspositionTable, depth: Option<u8>, stop_at: Option<u64>, moves: &[String], pre_stopped: bool) -> (u64, Vec<u64>) {
     match stop_at {
         Some(s) => sched::note(format!("item {} begin stop={} moves={}", k, s, moves.join(","))),
+        None if pre_stopped => sched::note(format!("item {} begin stop=pre moves={}", k, moves.join(","))),
         None => sched::note(format!("item {} begin stop=- moves={}", k, moves.join(","))),
     }
     sched::item_begin(stop_at);
-    let flag = AtomicBool::new(true);
+    let flag = AtomicBool::new(!pre_stopped);
     let best = crate::search::get_best_move_until_stop(game, table, &flag, depth);
     match best {
         Some(m) => println!("bestmove {}", m.uci_notation()),
